@@ -406,7 +406,10 @@ pub fn run(tier: Tier) -> i32 {
     let mut distinct_traces: BTreeSet<String> = BTreeSet::new();
     let mut outcome_classes: BTreeSet<String> = BTreeSet::new();
     let mut total_runs = 0u64;
+    let tier_bound = bound;
     for sc in &scs {
+        // the four-message scenario has ~10x the schedules per bound: it is explored to bound 1
+        let bound = if sc.msgs.len() > 3 { 1 } else { tier_bound };
         let seq = match sequential(sc) {
             Ok(s) => s,
             Err(e) => {
